@@ -347,6 +347,7 @@ def o144(ctx):
 
 def _obligations():
     return [
+        Obligation("O14.20", "accessors of the particle list: get_coordinates = (x,y,z) + shifts, get_angles / get_rotations = the stored zxz angles, fill stores values as given (shared with C05)", _c05.accessors, floor=20),
         Obligation("O14.9", "map files given by path are read as written and results are written as computed (shared with C11)", lambda ctx: (_c11.o111(ctx), _c11.o115(ctx)), floor=37),
         Obligation("O14.1", "rotate: affine_transform receives the pull-back [[R^T, c - R^T c],[0,1]], c = floor(shape/2)", o141, floor=12),
         Obligation("O14.2", "place_object: rotation/position/colour of the same particle, transpose_rotation, surroundings kept", o142, floor=6),
@@ -358,4 +359,4 @@ def _obligations():
 
 
 def obligations():
-    return _obligations() + [labels_obligation("C14"), selectors_obligation("C14"), effects_obligation("C14"), plumbing_obligation("C14"), overrides_obligation("C14"), options_obligation("C14")]
+    return _obligations() + [constructors_obligation(['cryomotl.Motl', 'cryomotl.EmMotl']), labels_obligation("C14"), selectors_obligation("C14"), effects_obligation("C14"), plumbing_obligation("C14"), overrides_obligation("C14"), options_obligation("C14")]
